@@ -249,3 +249,51 @@ func findRelationAppends(fn *FuncRef) []*ast.CallExpr {
 	})
 	return out
 }
+
+// guardAtoms lists the atomic conditions that guard target inside fn: the conjuncts of enclosing if conditions and,
+// negated, the conditions of preceding early exits in the enclosing blocks; rendered as canonical paths with local
+// single definitions substituted. Loop domains are not included (see guardDeps for those).
+func guardAtoms(c *Ctx, fn *FuncRef, target ast.Node) []string {
+	info := fn.Pkg.TypesInfo
+	defs := newDefs(info)
+	defs.scan(fn.Decl.Body)
+	pc := &pathCtx{info: info, defs: defs, root: fn.Decl.Body}
+	pm := parentMap(fn.Decl.Body)
+	var out []string
+	addCond := func(e ast.Expr, negate bool) {
+		if negate {
+			out = append(out, "!("+pc.path(e)+")")
+			return
+		}
+		for _, x := range flattenAnd(e) {
+			out = append(out, pc.path(x))
+		}
+	}
+	var cur ast.Node = target
+	for cur != nil {
+		par := pm[cur]
+		switch p := par.(type) {
+		case *ast.IfStmt:
+			if cur == ast.Node(p.Body) {
+				if p.Init != nil {
+					// `if v, err := f(); err == nil`: the definition is part of the atom through substitution
+				}
+				addCond(p.Cond, false)
+			} else if cur == p.Else {
+				addCond(p.Cond, true)
+			}
+		case *ast.BlockStmt:
+			for _, s := range p.List {
+				if s == cur {
+					break
+				}
+				if is, ok := s.(*ast.IfStmt); ok && endsInExit(is.Body) {
+					addCond(is.Cond, true)
+				}
+			}
+		}
+		cur = par
+	}
+	sort.Strings(out)
+	return out
+}
